@@ -42,6 +42,10 @@ checks = {
  "C19": dict(engine="hdrmc", cat="model_checking", ref="DESIGN.md 3, 7 C19",
    text="in every state: locator for max 1,2,3,10,50 and the verify-only locator are checked for membership, order, start at tip-1, length, duplicates; protocol-conformant peers on every accepted tip (and 1-2 headers ahead) are simulated and their first reply header is submitted to the real repository",
    note=A_NOTE + "; synthetic split table at heights 2/3 and the real mainnet table on base chains", tech=A_TECH),
+ "C02": dict(engine="powenum", cat="exploration", ref="DESIGN.md 6, 7 C02",
+   text="three complete finite spaces through the real code: (1) Branch.Target on real Branch objects (root and fork branches straddling either median window) for all 3^6 order/tie patterns of the six headers that matter x 8 time-span classes x bits patterns, compared with a reference implementation of the network's 144-block algorithm; (2) every exponent byte 0..255 x 11 mantissas through ProcessHeader and HandleHeadersMessage: no panic for any encoding, refusal whenever the hash exceeds a well-defined target (incl. zero targets); (3) both real mainnet fixture chains (incl. the 556767 split) accepted with difficulty checking on, and 15 single-field mutations of every header in a window refused with the right error class",
+   note="no mining: a header meeting a small target cannot be constructed, so the accept side rests on the real chain; negative/overflowing encodings only need to not crash; reference DAA/compact codec in /verif/ref written from the published node algorithm",
+   tech="bounded-exhaustive enumeration of finite input spaces on the implementation against a reference (exhaustive: true)"),
  "C04": dict(engine="blkenum", cat="fault_enumeration", ref="DESIGN.md 6, 7 C04",
    text="complete Cartesian enumeration of block size (1-8/9) x relevant subset x corruption/fault kind x position through the real BlockDownloader.HandleBlock with a recording processor/store: confirmation-stage calls occur only for the requested header with full count and matching merkle root and no earlier fault; then exactly coinbase, the relevant occurrences in block order with proofs that verify (also recomputed by an independent merkle implementation), the txid record last; Complete is nil iff all of it happened",
    note="HandleBlock driven directly with a pre-filled closed channel (sequential); interleavings are C16; the node-side framing leg is covered by the C14/C15 checks",
@@ -71,6 +75,7 @@ for pid, c in checks.items():
     })
 
 kinds = {
+ "powenum": "complete enumeration of difficulty-algorithm inputs, compact-bits encodings and real-chain mutations through the real headers package",
  "blkenum": "complete enumeration of block contents x corruptions x fault positions through the real BlockDownloader.HandleBlock",
  "peermc": "explicit-state BFS over operation histories on the real StoragePeerRepository against a map model; file-prefix enumeration; arbitrary-content loads in limited worker subprocesses",
  "hdrmc": "explicit-state BFS over operation histories on the real headers.Repository; exact state de-duplication; reference block-tree model; crash-point enumeration",
